@@ -1,2 +1,4 @@
 import USProofs.RealInst
 import USProofs.Properties.C07
+import USProofs.Properties.C10
+import USProofs.Properties.C11
